@@ -37,6 +37,9 @@ func NewBuilder(dir string, numItems uint, targetFileSize uint64) (*Builder, err
 			return nil, fmt.Errorf("failed to create temp dir: %w", err)
 		}
 	}
+	if numItems == 0 {
+		return nil, fmt.Errorf("numItems must be > 0")
+	}
 	if targetFileSize == 0 {
 		targetFileSize = math.MaxUint64
 	}
